@@ -32,7 +32,7 @@ ASSUME = [
     "that scales like a wave number",
 ]
 RULE = ("cases from random.Random(seed): (A) structure_factor_mean on noise / wave / droplet fields, d = 1-3, stretched by "
-        "s in {1/32..32} (rel 1e-9), field scaling and rolling; (B) droplet_detection on rendered emulsions, d = 1-3, "
+        "s in {1/32..32} (rel 1e-9), field scaling by every factor of spectrum_common.SCALE_FACTORS and rolling; (B) droplet_detection on rendered emulsions, d = 1-3, "
         "= (V/n)^(1/d) with n from locate_droplets (rel 1e-12), stretching, rolling, positive field scaling under the relative "
         "thresholds extrema / mean / otsu (exact); probes: cylindrical / polar / spherical grids (F16), absolute "
         "threshold and negative factor (F18); (C) structure_factor_maximum on plane waves with >= 4 "
@@ -75,11 +75,13 @@ def prop_mean(c: dict, rng: random.Random) -> list[dict]:
             fails.append({"what": "structure_factor_mean does not scale with the grid", "method": "structure_factor_mean",
                           "input": sc.canon(c), "stretch": s, "got": Ls, "want": s * L})
             break
-    cc = rng.choice([-2.5, 1e-5, 0.5, 1e4])
-    Lc = gls(sc.make_field(c, cc * data), "structure_factor_mean")
-    if not rel_close(Lc, L, 1e-9):
-        fails.append({"what": "structure_factor_mean changes when the field is multiplied by a constant",
-                      "method": "structure_factor_mean", "input": sc.canon(c), "factor": cc, "got": Lc, "want": L})
+    for cc in sc.SCALE_FACTORS:
+        Lc = gls(sc.make_field(c, cc * data), "structure_factor_mean")
+        if not rel_close(Lc, L, 1e-9):
+            fails.append({"what": "structure_factor_mean changes when the field is multiplied by a constant",
+                          "method": "structure_factor_mean", "input": sc.canon(c), "factor": cc, "got": sc.json_safe(Lc),
+                          "want": L})
+            break
     sh = [rng.randrange(0, n) for n in data.shape]
     Lr = gls(sc.make_field(c, np.roll(data, sh, axis=tuple(range(data.ndim)))), "structure_factor_mean")
     if not rel_close(Lr, L, 1e-9):
@@ -159,8 +161,8 @@ def prop_count(c: dict, rng: random.Random) -> list[dict]:
                       "input": sc.canon(c), "shift": sh, "got": Lr, "want": L})
     # field scaling: exact invariance for positive factors under the relative threshold rules (the absolute default
     # threshold and negative factors are the known finding F18, probed separately)
-    cc = rng.choice([0.4, 2.0, 1e3])
-    for thr in ("extrema", "mean", "otsu"):
+    for cc, thr in [(rng.choice([0.4, 2.0, 1e3]), t_) for t_ in ("extrema", "mean", "otsu")] + \
+                   [(cc_, rng.choice(["extrema", "mean", "otsu"])) for cc_ in sc.POSITIVE_SCALE_FACTORS]:
         L0 = gls(f, "droplet_detection", threshold=thr)
         Lc = gls(ScalarField(f.grid, cc * f.data), "droplet_detection", threshold=thr)
         if not (rel_close(Lc, L0, 1e-12) or (math.isinf(Lc) and math.isinf(L0))):
@@ -417,12 +419,14 @@ def prop_peak_field(c: dict, rng: random.Random, known_lines: list) -> list[dict
                                       "Fourier bin", "method": PEAK, "smoothing": label, "input": sc.canon(c), "stretch": s,
                               "got_bins": sc.json_safe(ks / bin_), "want_bins": sc.json_safe(k0 / bin_)})
             break
-        cc = rng.choice([-2.5, 0.5, 1e4])
-        kc = k_of(sc.make_field(c, cc * data), **kw)
-        if not same(kc, k0, bin_):
+        for cc in [rng.choice([-2.5, 0.5, 1e4])] + rng.sample(sc.SCALE_FACTORS, 3):
+            kc = k_of(sc.make_field(c, cc * data), **kw)
+            if same(kc, k0, bin_):
+                continue
             fails.append({"what": f"structure_factor_maximum ({label} smoothing) changes when the field is multiplied by a "
                                   "constant", "method": PEAK, "smoothing": label, "input": sc.canon(c), "factor": cc,
                           "got_bins": sc.json_safe(kc / bin_), "want_bins": sc.json_safe(k0 / bin_)})
+            break
         sh = [rng.randrange(0, n) for n in data.shape]
         kr = k_of(sc.make_field(c, np.roll(data, sh, axis=tuple(range(data.ndim)))), **kw)
         if not same(kr, k0, bin_):
